@@ -55,12 +55,14 @@ fn main() {
                 "C11" => props::c11::run(tier),
                 "C12" => props::c12::run(tier),
                 "C14" => props::c14::run(tier),
+                "C17" => props::c17::run(tier),
                 _ => {
                     eprintln!("unknown property {}", id);
                     2
                 }
             }
         }
+        "dump" => props::c17::dump(args.get(2).map(|s| s.as_str()).unwrap_or("quick"), &args[3]),
         "ladder-timing" => {
             ladder_timing();
             0
